@@ -96,6 +96,8 @@ class Ref:
         if o == "concat":
             # lists of different element layout cannot be concatenated (the library ignores the call)
             return self.hook[int(w[1]) - 1] == self.hook[int(w[2]) - 1]
+        if o == "bigsort":
+            return len(self.ls[int(w[1]) - 1]) == 0
         return True
 
     def apply(self, op):
@@ -106,6 +108,9 @@ class Ref:
             self.keys = {10 + i: int(k) for i, k in enumerate(w[1:])}
             return "ok"
         l = self.ls[int(w[1]) - 1]
+        if o == "bigsort":
+            # checked step by step inside the harness; the list is empty again afterwards
+            return "bigsort"
         if o == "pushf":
             l.insert(0, int(w[2])); return "ok"
         if o == "pushb":
@@ -173,6 +178,11 @@ def oracle(prop, script, c_lines):
                 return "op %d '%s': an element was written after its clear callback" % (i, op)
         elif o == "sort":
             pass
+        elif o == "bigsort":
+            if not res.startswith("ok ck="):
+                w_ = op.split()
+                return ("op %d '%s': sorting a list of %s elements (keys below %s): %s"
+                        % (i, op, w_[2], w_[3], res))
         elif exp is not None and res != exp:
             return "op %d '%s': result '%s', reference '%s'" % (i, op, res, exp)
         for k, (xs, t, c) in enumerate(ls):
@@ -227,6 +237,17 @@ def ref_after(script):
     for op in script:
         ref.apply(op)
     return ref
+
+
+def bigsort_scripts(rng, quick):
+    """long lists: a sort is judged element by element inside the harness (lengths around
+    powers of two and in between; the small-scope closures stay below 6 elements)"""
+    sizes = [1024, 1500, 4096, 5000] if quick else [1024, 2047, 2048, 4096, 4097, 6144, 8192, 20000, 33000, 65536, 70000]
+    out = []
+    for j, n in enumerate(sizes):
+        out.append(["bigsort %d %d %d %d" % (1 + j % 3, n, (7, 1000, 2, 100000)[j % 4], rng.randrange(1 << 30)),
+                    "pushb 1 10", "back 1"])
+    return out
 
 
 def corpus():
